@@ -174,6 +174,15 @@ func runOp(op *sx, tpl **textwire.Template, strip func(string) string) (res stri
 			hs[i] = hx(n)
 		}
 		return "OK " + strings.Join(hs, ",")
+	case "configure":
+		// the package-level configuration changes, the loaded templates stay
+		textwire.Configure(&config.Config{
+			TemplateDir:   arg(0),
+			TemplateExt:   arg(1),
+			ErrorPagePath: arg(2),
+			DebugMode:     a[3].atom == "1",
+		})
+		return "OK"
 	case "newnil":
 		t, err := textwire.NewTemplate(nil)
 		if err != nil {
@@ -321,6 +330,14 @@ func register(ty, name, fn string) error {
 			f = func(a []any, args ...any) []any { return []any{int64(1), "x"} }
 		case "const2":
 			f = func(a []any, args ...any) []any { return []any{int64(2)} }
+		case "revip":
+			// changes the slice it received in place and returns that same slice
+			f = func(a []any, args ...any) []any {
+				for i, j := 0, len(a)-1; i < j; i, j = i+1, j-1 {
+					a[i], a[j] = a[j], a[i]
+				}
+				return a
+			}
 		default:
 			panic("harness: unknown arr fn " + fn)
 		}
